@@ -424,22 +424,24 @@ func c12Worker(c *Ctx) {
 	fn := f.Function
 	b := ana.NewBuilder(c.P, fn)
 	WS := itoa(int64(c.wordBits()))
-	hit := plainEdges(edgesMatching(b, "bin<<>(call<*>(_, _, p3, p4), "+WS+")"))
+	// the worker's parameters by role (method or plain function): digest []byte, start nonce uint64, sufficient zeros int, target *big.Int
+	PD, PS, PZ, PTG := searchParam(fn, "[]byte"), searchParam(fn, "uint64"), searchParam(fn, "int"), searchParam(fn, "*math/big.Int")
+	hit := plainEdges(edgesMatching(b, "bin<<>(call<*>(_, _, "+PZ+", "+PTG+"), "+WS+")"))
 	for _, e := range ana.Exits(fn) {
 		if e.Panic {
-			es := plainEdges(edgesMatching(b, "bin<>>(p3, 243)"))
+			es := plainEdges(edgesMatching(b, "bin<>>("+PZ+", 243)"))
 			r.Check(exitMustPass(fn, e, es), "C12.return.target-range", c.ipos(e.Instr), "the worker panics only for more than 243 sufficient zeros")
 			continue
 		}
 		if b.Of(e.Results[1], e.Instr).Is("nil") {
 			vt := b.Of(e.Results[0], e.Instr)
-			_, ok := ana.Match("bin<+>(ind<+"+WS+">(p2), conv<uint64>(call<*>(_, _, p3, p4)))", vt)
+			_, ok := ana.Match("bin<+>(ind<+"+WS+">("+PS+"), conv<uint64>(call<*>(_, _, "+PZ+", "+PTG+")))", vt)
 			r.Check(ok && exitMustPass(fn, e, hit), "C12.return.nonce", c.ipos(e.Instr), "returned nonce = batch base + lane index, only when the lane test found a lane: %s", short(vt.String(), 140))
 		}
 	}
 	fill := false
 	for _, t := range deepCallTerms(c, b) {
-		if matches("call<*>(slice(load(iaddr(_, bin<+>(ind<+1>(-1), 1))), call<github.com/iotaledger/iota.go/encoding/b1t6.EncodedLen>(len(p1)), none), bin<+>(ind<+"+WS+">(p2), conv<uint64>(bin<+>(ind<+1>(-1), 1))))", t) && calleeOf(t) != nil {
+		if matches("call<*>(slice(load(iaddr(_, bin<+>(ind<+1>(-1), 1))), call<github.com/iotaledger/iota.go/encoding/b1t6.EncodedLen>(len("+PD+")), none), bin<+>(ind<+"+WS+">("+PS+"), conv<uint64>(bin<+>(ind<+1>(-1), 1))))", t) && calleeOf(t) != nil {
 			fill = true
 		}
 	}
